@@ -27,6 +27,8 @@ type Profile struct {
 	PDocNoise                                 float64
 	PLongValues                               float64 // clauses with more than 100 values, on the operators whose operands are pre-parsed
 	PSegBucket                                float64 // extra weight on weighted segment rules with a bucket-by attribute, some of them invalid references
+	PPseudoKind                               float64 // weighted segment rules by the pseudo-kind "multi" against multi-kind contexts
+	PTopBucket                                float64 // a context whose bucket is exactly 1.0 (weights adding up to 100000, a 100 % segment rule)
 	PNestedSeg                                float64 // a weighted segment rule that first looks into another segment, split point next to the context's bucket
 	PSingleMal                                float64 // cases that are one well-formed flag with exactly one malformation, certainly reached
 	PZeroAge                                  float64 // the context certainly has "age": +0 or -0
@@ -949,6 +951,9 @@ func (w *World) genSegment(key string) *J {
 			if r.P(0.4) {
 				kind = docKind(r)
 			}
+			if p.PPseudoKind > 0 && w.ctx.Multi && r.P(p.PPseudoKind) { // "multi" is what a multi-kind context calls itself, and the kind of none of its parts
+				kind = "multi"
+			}
 			bucketBy := ""
 			if r.P(0.3 + p.PSegBucket) {
 				bucketBy = r.Pick([]string{"email", "age", "name", "score"})
@@ -1341,6 +1346,69 @@ func (w *World) genNestedWeighted(c *EvalCase) {
 	c.Segs = []Item{{Key: "outer", Form: form, Doc: outer}, {Key: "inner", Form: form, Doc: inner}}
 }
 
+// topBucketTable: (flag or segment key, salt, context key) for which SHA-1("<key>.<salt>.<context key>") begins with 25 one
+// bits: the 15-digit prefix rounds to 2^60 in single precision and the bucket is exactly 1.0 -- the one value that is not
+// below 100000/100000 (about one input in 33 million; found by search).
+var topBucketTable = [][3]string{
+	{"f1", "s", "u8007457"}, {"f2", "xyz", "u13689606"}, {"f0", "salt", "u14657542"}, {"f0", "salt", "u34303013"},
+	{"s2", "", "u35341662"}, {"f2", "xyz", "u36306827"}, {"f3", "", "u35426646"}, {"f3", "", "u41878878"},
+	{"f1", "s", "u42504217"}, {"s2", "", "u51416392"}, {"s1", "salt", "u66745367"}, {"s0", "ss", "u69440878"},
+	{"s0", "ss", "u94498569"}, {"s1", "salt", "u175140142"},
+}
+
+// genTopBucket: a context whose bucket is exactly 1.0 against weights that add up to 100000 (nobody may be left out of the
+// last bucket; nobody is in a 100 % segment rule whose bucket is not below 1) and just beside.
+func (w *World) genTopBucket(c *EvalCase) {
+	r := w.r
+	e := topBucketTable[r.Intn(len(topBucketTable))]
+	sp := &w.ctx.Singles[r.Intn(len(w.ctx.Singles))]
+	sp.Key, sp.Secondary = e[2], nil
+	rk := ""
+	if sp.Kind != "user" || r.P(0.4) {
+		rk = sp.Kind
+	}
+	form := []int{1, 1, 0, 4, 3, 2}[r.Intn(6)]
+	if e[0][0] == 's' {
+		rule := JObj(KV{"id", JStr("w")}, KV{"clauses", JArr()}, KV{"weight", JInt(r.Pick2([]int64{100000, 100000, 99999, 100001, 200000}))})
+		if rk != "" {
+			rule.Set("rolloutContextKind", JStr(rk))
+		}
+		seg := JObj(KV{"key", JStr(e[0])}, KV{"included", JArr()}, KV{"excluded", JArr()}, KV{"salt", JStr(e[1])}, KV{"version", JInt(1)}, KV{"rules", JArr(rule)})
+		flag := JObj(KV{"key", JStr("f0")}, KV{"on", JBool(true)}, KV{"prerequisites", JArr()}, KV{"targets", JArr()}, KV{"contextTargets", JArr()},
+			KV{"rules", JArr(JObj(KV{"id", JStr("r")}, KV{"variation", JInt(1)}, KV{"clauses", JArr(JObj(KV{"attribute", JStr("")}, KV{"op", JStr("segmentMatch")},
+				KV{"values", JArr(JStr(e[0]))}, KV{"negate", JBool(r.P(0.3))}))}, KV{"trackEvents", JBool(false)}))},
+			KV{"fallthrough", JObj(KV{"variation", JInt(0)})}, KV{"offVariation", JInt(0)}, KV{"variations", JArr(JStr("v0"), JStr("v1"))},
+			KV{"salt", JStr("fs")}, KV{"version", JInt(1)})
+		c.Top = Item{Key: "f0", Form: form, Doc: flag}
+		c.Segs = []Item{{Key: e[0], Form: form, Doc: seg}}
+		return
+	}
+	weights := [][]int64{{100000, 0}, {60000, 40000}, {100000}, {50000, 50000, 0}, {99999, 1}, {100000, 0, 0}, {30000, 30000}}[r.Intn(7)]
+	vars := JArr()
+	for i, wt := range weights {
+		wv := JObj(KV{"variation", JInt(int64(i))}, KV{"weight", JInt(wt)})
+		if r.P(0.2) {
+			wv.Set("untracked", JBool(true))
+		}
+		vars.A = append(vars.A, wv)
+	}
+	ro := JObj(KV{"variations", vars})
+	if rk != "" {
+		ro.Set("contextKind", JStr(rk))
+	}
+	if r.P(0.3) {
+		ro.Set("kind", JStr("experiment"))
+	}
+	flag := JObj(KV{"key", JStr(e[0])}, KV{"on", JBool(true)}, KV{"prerequisites", JArr()}, KV{"targets", JArr()}, KV{"contextTargets", JArr()},
+		KV{"rules", JArr()}, KV{"fallthrough", JObj(KV{"rollout", ro})}, KV{"offVariation", JInt(0)},
+		KV{"variations", JArr(JStr("v0"), JStr("v1"), JStr("v2"))}, KV{"salt", JStr(e[1])}, KV{"version", JInt(1)})
+	if r.P(0.4) { // the same rollout on a rule that matches everyone
+		flag.Replace("rules", JArr(JObj(KV{"id", JStr("r")}, KV{"rollout", ro.Clone()}, KV{"clauses", JArr()}, KV{"trackEvents", JBool(false)})))
+		flag.Replace("fallthrough", JObj(KV{"variation", JInt(0)}))
+	}
+	c.Top = Item{Key: e[0], Form: form, Doc: flag}
+}
+
 // GenEval produces one evaluation case.
 func GenEval(r *Rng, p *Profile) *EvalCase {
 	w := &World{r: r, p: p}
@@ -1356,6 +1424,10 @@ func GenEval(r *Rng, p *Profile) *EvalCase {
 	}
 	if r.P(p.PNestedSeg) && w.ctx.Invalid == 0 {
 		w.genNestedWeighted(c)
+		return c
+	}
+	if p.PTopBucket > 0 && r.P(p.PTopBucket) && w.ctx.Invalid == 0 {
+		w.genTopBucket(c)
 		return c
 	}
 	form := func() int {
